@@ -56,6 +56,7 @@ static void inspect(const Elem &e, const char *buf, size_t len, int depth)
 {
     if(!e.is_bundle) {
         count("inspect.message");
+        if(e.msg.addr.compare(0, 6, "#bundl") == 0) count("inspect.message_address_near_bundle_marker");
         if(rtosc_bundle_p(buf)) fail("message_taken_for_bundle", {}, g_desc, "rtosc_bundle_p true for " + vis(e.msg.addr), "false");
         return;
     }
@@ -133,14 +134,25 @@ static void run_subtree(Rng &r)
     describe_case(g_desc);
     distinct(hash_bytes(rb.data(), rb.size(), cap));
     Heap h(cap);
-    memset(h.p, 0, cap);
+    // the save buffer as an application reuses it: zeroed, stale non-zero bytes, or a previous (longer) snapshot
+    int dirt = (int)r.below(3);
+    if(dirt == 0) memset(h.p, 0, cap);
+    else if(dirt == 1) for(size_t i = 0; i < cap; ++i) h.p[i] = (char)(r.chance(0.5) ? 0x01 + r.below(255) : 0);
+    else { SObj o2 = o; strcpy(o2.s, "a previous snapshot"); subtree_serialize(h.p, cap, &o2, root_ports); count("subtree.buffer_reused"); }
+    g_desc += fmt(" buffer=%s", dirt == 0 ? "zeroed" : dirt == 1 ? "stale bytes" : "previous snapshot");
     size_t len = subtree_serialize(h.p, cap, &o, root_ports);
     count("subtree.serialized");
+    if(dirt) count("subtree.dirty_buffer");
     if(cap >= rb.size()) {
         count("subtree.fits");
         if(len != rb.size()) { fail("subtree_len", {}, g_desc, std::to_string(len), std::to_string(rb.size())); return; }
         if(memcmp(h.p, rb.data(), len)) { fail("subtree_bytes", {}, g_desc, hexs(h.p, len > 200 ? 200 : len), hexs(rb.data(), len > 200 ? 200 : len)); return; }
         if(rtosc_bundle_elements(h.p, len) != el.size()) fail("subtree_elements", {}, g_desc, std::to_string(rtosc_bundle_elements(h.p, len)), std::to_string(el.size()));
+        // read back with the capacity as the bound, as subtree_deserialize(buffer, buffer_size, ...) does
+        size_t ml = rtosc_message_length(h.p, cap);
+        if(ml != len) fail("subtree_length_under_capacity_bound", {}, g_desc, std::to_string(ml), std::to_string(len));
+        size_t ne = rtosc_bundle_elements(h.p, cap);
+        if(ne != el.size()) fail("subtree_elements_under_capacity_bound", {}, g_desc, std::to_string(ne), std::to_string(el.size()));
     } else {
         count("subtree.too_small");
         if(len != 0) fail("subtree_nofit_return", {}, g_desc, std::to_string(len), "0");
